@@ -15,6 +15,9 @@ every open; losing it cannot lose an fsynced record because records are validate
   MPT-C03e  an acknowledged put that had to grow the embedded WAL moved every committed byte: before it returns, the
             growth path has rewritten the TOC with the adjusted offsets, persisted the header and synced (shared with
             C02's growth protocol rule).
+  FLOW-C03f  (shared with FLOW-C05h) a WAL opened from a header numbers its next record after Header.wal_sequence: an
+             acknowledged put that is numbered at or below the checkpoint is synced to disk and then ignored by every
+             replay.
 Not decided: torn writes, directory-entry durability inside atomic-write-file, whether the file still opens."""
 from . import lib, effects
 from .effects import CLEAN, UNSYNCED
@@ -42,6 +45,8 @@ def run(ctx):
         if _g is not None:
             ctx.touch(_g, len(_g.blocks))
             c02.growth_protocol(ctx, ctx.facts(), _g, 'MPT-C03e')
+    from . import c05
+    c05._open_sequence(ctx, ctx.facts(), 'FLOW-C03f')     # an acknowledged put numbered <= the checkpoint is dropped by recovery
     ctx.rule('SYNC-C03a', 'write_record ends clean except on the skip_sync edge; skip_sync protocol (set only via set_skip_sync from begin/end_batch; end_batch flushes first)')
     ctx.rule('SYNC-C03b', 'clean at the staging rename; copy_from ends clean')
     ctx.rule('SYNC-C03c', 'every acknowledging function returns Ok only in the clean state (write => unsynced, sync => clean, calls by summary)')
